@@ -349,6 +349,15 @@ def kwTy (p : String) : List String → List Ty → Option Ty
 def lamArgTys (ps : List String) (pos : List Ty) (kwn : List String) (kwt : List Ty) : Gamma :=
   ps.zipIdx.map (fun (p, i) => (p, (kwTy p kwn kwt).getD (pos[i]?.getD .any)))
 
+/-- the positional arguments of a call node -/
+def callArgs : Expr → List Expr
+  | .call _ as _ _ => as
+  | _ => []
+
+def isLamArg : Expr → Bool
+  | .lam _ _ => true
+  | _ => false
+
 mutual
 /-- `type_transformer.visit` (fuel: the follower is re-entered for nested lambdas) -/
 def follow (M : Model) : Nat → Gamma → FSt → Expr → Except Err FRes
@@ -534,10 +543,7 @@ def candLoop (M : Model) : Nat → Gamma → FSt → Expr → String → List Ex
     | Option.none => candLoop M fuel G st recv m args kwn kwv rest last
     | some (defining, mi) => do
       let filled ← fillDefaults mi.params (.attr recv m) args kwn kwv
-      let fargs := match filled with
-        | .call _ as _ _ => as
-        | _ => []
-      let hasLam := fargs.any (fun a => match a with | .lam _ _ => true | _ => false)
+      let hasLam := (callArgs filled).any isLamArg
       -- static resolution of the return annotation
       let last1 : Option MRes :=
         match resolveRet defining M (mi.ret.getD .any) with
